@@ -131,6 +131,16 @@ def check(ctx: Ctx) -> None:  # noqa: C901, PLR0915
     ok = norm(ret.value) == "parameter_name in output_mapspec_names and (parameter_name not in input_mapspec_names or (input_spec_axes is not None and None in input_spec_axes))"
     ctx.add("4-reduction", air, ret, ok, "reduced = mapped producer whose consumer takes it whole or with a ':' axis" if ok else "_axis_is_reduced changed", key="axis-is-reduced")
 
+    # ------------------------------------------------------------ 6 extraction (producer and consumer annotations are read the same way)
+    n6 = 0
+    for q in ("pipefunc._pipefunc.PipeFunc.parameter_annotations", "pipefunc._pipefunc.PipeFunc.output_annotation"):
+        f = P.func(q)
+        for c in [c for c in ast.walk(f.node) if isinstance(c, ast.Call) and dotted(c.func) == "safe_get_type_hints"]:
+            n6 += 1
+            ok = any(k.arg == "include_extras" and isinstance(k.value, ast.Constant) and k.value.value is True for k in c.keywords)
+            ctx.add("6-extraction", f, c, ok, "annotations are read with include_extras=True (Array[T] is Annotated: the element type lives in the extras)" if ok else
+                    "annotations are read without extras on this side only: Array[T] degrades to a bare ndarray and the element type is never compared", key=f"extras {f.name}")
+    ctx.floor("6-extraction", n6, 2)
     # ------------------------------------------------------------ 5 wildcards
     ci = P.func(f"{TY}._check_identical_or_any")
     ret = [r for r in walk_no_nested(ci.node) if isinstance(r, ast.Return)][-1]
@@ -167,5 +177,6 @@ MUTANTS = [
     Mutant("incoming-any-wildcard", T, "        or required_type is Any\n        or incoming_type is NoAnnotation", "        or required_type is Any\n        or incoming_type is Any\n        or incoming_type is NoAnnotation", ("C16.5-wildcards",)),
     Mutant("no-required-noannotation", T, "        or incoming_type is NoAnnotation\n        or required_type is NoAnnotation\n", "        or incoming_type is NoAnnotation\n", ("C16.5-wildcards",)),
     Mutant("default-true", T, "        return result\n    return False\n\n\ndef _is_typevar_compatible", "        return result\n    return True\n\n\ndef _is_typevar_compatible", ("C16.5-wildcards",)),
+    Mutant("output-annotation-no-extras", "pipefunc/_pipefunc.py", "            hint = safe_get_type_hints(func, include_extras=True).get(\"return\", NoAnnotation)\n", "            hint = safe_get_type_hints(func).get(\"return\", NoAnnotation)\n", ("C16.6-extraction",), why="seeded C16/3"),
     Mutant("twin-msg", V, "                        \"\\nPlease make sure the shared input arguments have the same type.\"\n", "                        \"\\nPlease make sure the shared input arguments have compatible types.\"\n", twin=True),
 ]
